@@ -54,6 +54,10 @@ fn build_reply(recipe: &str, k: &[u8], spk: &[u8], spk_other: &[u8], client_pka:
         "zerokey" => { let mut s2 = ServerSeal::new(&[0u8; 16]); ts_request(None, Some(&s2.seal(&plus1)), 2) }
         "fieldkey" => { let mut s2 = ServerSeal::new(field_key); ts_request(None, Some(&s2.seal(&plus1)), 2) }
         "replay" => replay.to_vec(),
+        // the honest token with a mask XOR-ed over its first bytes (the 16-byte signature: version, checksum, sequence)
+        "pkaxor" => { let m = unhex(arg); let mut p = honest_pka.clone(); for (i, b) in m.iter().enumerate() { if i < p.len() { p[i] ^= b; } } ts_request(None, Some(&p), 2) }
+        // the honest sealed part under an all-zero checksum (a "dummy signature")
+        "sigzero" => { let mut p = honest_pka.clone(); for i in 4..12 { if i < p.len() { p[i] = 0; } } ts_request(None, Some(&p), 2) }
         "raw" => unhex(arg),
         "empty" => vec![],
         _ => honest.clone(),
@@ -256,6 +260,20 @@ pub fn generate(thorough: bool, seed: u64, part: (usize, usize), em: &mut Emitte
             let b = base_case(&mut r, i);
             for (rc, pre, fl) in &[("zerokey", "", 0u32), ("fieldkey", "", 0), ("fieldkey", "", 0x40000000), ("zerokey", "", 0x40000000), ("replay", "same", 0), ("honest", "same", 0), ("honest", "flip", 0), ("wrongkey", "flip", 0)] {
                 let mut c = b.clone(); c.reply = rc.to_string(); c.pre = pre.to_string(); c.flags &= !fl; c.ra = false;
+                run(em, &c);
+            }
+        }
+    }
+    // corrupted checksums whose byte differences cancel (same bit in two / four / eight checksum bytes, a whole
+    // mask on an even number of bytes), dummy signatures — also when the CHALLENGE leaves out NEGOTIATE_SIGN,
+    // SEAL or ALWAYS_SIGN (the client's verification of the proof does not depend on what the server offers)
+    if part.0 == 0 {
+        for (i, drop) in [0u32, 0x10, 0x20, 0x30, 0x8000, 0x8010].iter().enumerate() {
+            let b = base_case(&mut r, i);
+            for rc in &["pkaxor:000000000101", "pkaxor:00000000800000000080", "pkaxor:00000000ffff", "pkaxor:000000005a5a5a5a5a5a5a5a", "pkaxor:0000000001010101",
+                        "pkaxor:00000000000000000000000001", "pkaxor:01", "sigzero", "badsign", "honest"] {
+                if *drop != 0 && !thorough && (*rc == "pkaxor:00000000ffff" || *rc == "pkaxor:0000000001010101" || *rc == "pkaxor:01") { continue; }
+                let mut c = b.clone(); c.reply = rc.to_string(); c.flags &= !*drop; c.ra = false;
                 run(em, &c);
             }
         }
